@@ -58,6 +58,32 @@ class Layout:
         return self.metadir_rel(pid) + "/" + self.H(pid + fmt)
 
 
+_HEXDIGITS = set("0123456789abcdef")
+
+
+def permanent_kind(rel, layout):
+    """'object' / 'cidref' / 'pidref' / 'meta' / 'config' when `rel` has exactly the shape of a permanent address of
+    the published layout for this configuration (hexadecimal shard tokens of the configured depth and width, digest
+    length of the store algorithm), else None - a staging file, a deletion marker or anything else that is allowed
+    to exist only while a call is in flight, whatever it is called."""
+    if rel in ("hashstore.yaml", "python_client.log"):
+        return "config"
+    parts = rel.split("/")
+
+    def shaped(tokens):
+        joined = "".join(tokens)
+        return len(joined) == layout.hexlen and set(joined) <= _HEXDIGITS and layout.shard(joined) == list(tokens)
+    if parts[0] == "objects" and shaped(parts[1:]):
+        return "object"
+    if parts[0] == "refs" and len(parts) > 2 and parts[1] == "cids" and shaped(parts[2:]):
+        return "cidref"
+    if parts[0] == "refs" and len(parts) > 2 and parts[1] == "pids" and shaped(parts[2:]):
+        return "pidref"
+    if parts[0] == "metadata" and len(parts) > 2 and shaped(parts[1:-1]) and len(parts[-1]) == layout.hexlen and set(parts[-1]) <= _HEXDIGITS:
+        return "meta"
+    return None
+
+
 def walk_files(root):
     """relative path -> bytes for every regular file below root (symlinks are reported as files
     with their link text so that nothing escapes notice)."""
